@@ -1,4 +1,671 @@
-import RaptorModel.Model.Setup
+import RaptorModel.Lemmas.SetupLemmas
+import RaptorModel.Props.C06
+import RaptorModel.Props.C13
+import RaptorModel.Props.C15
+/-!
+# C08 — the hierarchy built by setup is conformal, Galerkin, and stops at a limit
+
+Model: `RaptorModel/Model/Setup.lean` (`continue?`, `galerkin`, `setupLoop`, `setup`, `conformal`,
+`stoppedAtLimit`). The prolongator builder is a parameter `prolong`; the two hypotheses on it are
+
+* `GoodProlong prolong` : on a well-formed square operator `prolong A` is well formed and has one
+  row per unknown of `A`;
+* `Strict o prolong`    : on a well-formed square operator with more than `max_coarse` unknowns
+  `prolong A` has fewer columns than rows (coarsening is strict).
+
+`Consec H l c` (`Lemmas/SetupLemmas.lean`) says that level `l` is immediately followed by level `c`
+in the hierarchy `H` (`H = pre ++ l :: c :: post`; index form `consec_iff_getElem?`).
+
+Results (all for arbitrary fuel and arbitrary starting depth `k`)
+1. structure: `setupLoop_ne_nil`, `setupLoop_head`, `setupLoop_last_P_none`,
+   `setupLoop_consecutive_struct`, `setupLoop_nonlast_P_some`;
+2. depth limit: `setupLoop_length_le`, `setup_length_le`;
+3. shapes: `galerkin_shape`, `galerkin_WF`, `setupLoop_levels_WF`, `setupLoop_conformal`,
+   `setup_conformal`, `workSize_eq`, `setupLoop_workSizes`;
+4. Galerkin: `setupLoop_consecutive`, `setupLoop_galerkin`, `setup_galerkin`;
+5. strict coarsening and termination: `setupLoop_sizes_strict`, `setupLoop_fuel_succ`,
+   `setup_fuel_irrelevant`, `setupLoop_stops_at_limit`, `setup_stops_at_limit`,
+   `setup_stoppedAtLimit`;
+6. why coarsening is strict when the strength graph has an edge: `count_lt_of_pair`,
+   `count_lt_of_independent`, `strict_of_labels`, `pmis_coarse_count_lt`,
+   `pmis_coarse_count_lt_of_symm`,
+   `pmis_coarse_count_lt_of_usableEdge`, `mis2_root_count_lt`, `mis2_roots_lt`,
+   `mis2_aggregates_lt`;
+7. a concrete run (4×4 path-graph Laplacian, pairwise aggregation), by `decide`.
+-/
 namespace Raptor.C08
-theorem placeholder : (1 : Nat) = 1 := rfl
+open Raptor.Sparse Raptor.Spgemm Raptor.Setup Raptor.SetupLemmas
+
+variable {K : Type}
+
+/-! ## Hypotheses on the prolongator builder -/
+
+/-- on a well-formed square operator the prolongator is well formed, one row per fine unknown -/
+def GoodProlong (prolong : Csr K → Csr K) : Prop :=
+  ∀ A : Csr K, A.WF = true → A.nRows = A.nCols →
+    (prolong A).WF = true ∧ (prolong A).nRows = A.nRows
+
+/-- coarsening is strict while the operator is larger than `max_coarse` -/
+def Strict (o : Opts) (prolong : Csr K → Csr K) : Prop :=
+  ∀ A : Csr K, A.WF = true → A.nRows = A.nCols → o.maxCoarse < A.nRows →
+    (prolong A).nCols < A.nRows
+
+/-! ## 1. Structure of the hierarchy -/
+section Structure
+variable [Add K] [Mul K] [Zero K] (big : K → Bool) (prolong : Csr K → Csr K) (o : Opts)
+
+theorem setupLoop_ne_nil (fuel k : Nat) (A : Csr K) : setupLoop big prolong o fuel k A ≠ [] := by
+  obtain ⟨P, rest, h⟩ := setupLoop_cons big prolong o fuel k A
+  rw [h]
+  exact List.cons_ne_nil _ _
+
+theorem setupLoop_length_pos (fuel k : Nat) (A : Csr K) :
+    1 ≤ (setupLoop big prolong o fuel k A).length := by
+  obtain ⟨P, rest, h⟩ := setupLoop_cons big prolong o fuel k A
+  rw [h]
+  exact Nat.succ_le_succ (Nat.zero_le _)
+
+/-- the first level holds the input operator -/
+theorem setupLoop_head (fuel k : Nat) (A : Csr K) :
+    ((setupLoop big prolong o fuel k A).head (setupLoop_ne_nil big prolong o fuel k A)).A = A := by
+  obtain ⟨P, rest, h⟩ := setupLoop_cons big prolong o fuel k A
+  have key : ∀ (H : List (HLevel K)) (hne : H ≠ []), H = ⟨A, P⟩ :: rest → (H.head hne).A = A := by
+    intro H hne hH
+    subst hH
+    rfl
+  exact key _ _ h
+
+theorem setupLoop_head? (fuel k : Nat) (A : Csr K) :
+    (setupLoop big prolong o fuel k A).head?.map (·.A) = some A := by
+  obtain ⟨P, rest, h⟩ := setupLoop_cons big prolong o fuel k A
+  rw [h]
+  rfl
+
+/-- the last level has no prolongator (`levels[last]->P == NULL`) -/
+theorem setupLoop_last?_P_none : ∀ (fuel k : Nat) (A : Csr K) (l : HLevel K),
+    (setupLoop big prolong o fuel k A).getLast? = some l → l.P = none
+  | 0, k, A, l, h => by
+    rw [setupLoop_zero, List.getLast?_singleton] at h
+    cases h
+    rfl
+  | f + 1, k, A, l, h => by
+    cases hc : continue? o A.nRows k with
+    | true =>
+      rw [setupLoop_succ_pos big prolong o hc] at h
+      obtain ⟨P', rest, hT⟩ := setupLoop_cons big prolong o f (k + 1) (galerkin big A (prolong A))
+      rw [hT, List.getLast?_cons_cons, ← hT] at h
+      exact setupLoop_last?_P_none f (k + 1) _ l h
+    | false =>
+      rw [setupLoop_succ_neg big prolong o hc, List.getLast?_singleton] at h
+      cases h
+      rfl
+
+theorem setupLoop_last_P_none (fuel k : Nat) (A : Csr K) :
+    ((setupLoop big prolong o fuel k A).getLast (setupLoop_ne_nil big prolong o fuel k A)).P
+      = none :=
+  setupLoop_last?_P_none big prolong o fuel k A _ (List.getLast?_eq_some_getLast _)
+
+/-- **structural lemma**: every level that has a successor stores `prolong` of its operator, and
+    the successor's operator is the library's triple product (no hypothesis at all) -/
+theorem setupLoop_consecutive_struct : ∀ (fuel k : Nat) (A : Csr K) (l c : HLevel K),
+    Consec (setupLoop big prolong o fuel k A) l c →
+      l.P = some (prolong l.A) ∧ c.A = galerkin big l.A (prolong l.A)
+  | 0, k, A, l, c, h => absurd h (by rw [setupLoop_zero]; exact consec_singleton _ _ _)
+  | f + 1, k, A, l, c, h => by
+    cases hc : continue? o A.nRows k with
+    | true =>
+      rw [setupLoop_succ_pos big prolong o hc] at h
+      obtain ⟨P', rest, hT⟩ := setupLoop_cons big prolong o f (k + 1) (galerkin big A (prolong A))
+      rw [hT] at h
+      rcases consec_cons_cons.mp h with ⟨rfl, rfl⟩ | h'
+      · exact ⟨rfl, rfl⟩
+      · rw [← hT] at h'
+        exact setupLoop_consecutive_struct f (k + 1) _ l c h'
+    | false =>
+      rw [setupLoop_succ_neg big prolong o hc] at h
+      exact absurd h (consec_singleton _ _ _)
+
+/-- every level but the last has a prolongator -/
+theorem setupLoop_nonlast_P_some (fuel k : Nat) (A : Csr K) (l c : HLevel K)
+    (h : Consec (setupLoop big prolong o fuel k A) l c) : l.P.isSome = true := by
+  rw [(setupLoop_consecutive_struct big prolong o fuel k A l c h).1]
+  rfl
+
+/-- index form: level `i` has a prolongator whenever level `i + 1` exists -/
+theorem setupLoop_nonlast_P_some_idx (fuel k : Nat) (A : Csr K) (i : Nat) (l c : HLevel K)
+    (hl : (setupLoop big prolong o fuel k A)[i]? = some l)
+    (hc : (setupLoop big prolong o fuel k A)[i + 1]? = some c) :
+    l.P = some (prolong l.A) ∧ c.A = galerkin big l.A (prolong l.A) :=
+  setupLoop_consecutive_struct big prolong o fuel k A l c (consec_iff_getElem?.mpr ⟨i, hl, hc⟩)
+
+/-! ## 2. The depth limit -/
+
+/-- **depth limit**: started with `k` levels already built (`1 ≤ k ≤ max_levels`), the loop never
+    brings the total above `max_levels` -/
+theorem setupLoop_length_le {m : Nat} (hm : o.maxLevels = some m) : ∀ (fuel k : Nat) (A : Csr K),
+    1 ≤ k → k ≤ m → k - 1 + (setupLoop big prolong o fuel k A).length ≤ m
+  | 0, k, A, h1, hk => by
+    rw [setupLoop_zero, List.length_singleton]
+    omega
+  | f + 1, k, A, h1, hk => by
+    cases hc : continue? o A.nRows k with
+    | true =>
+      have hlt : k < m := ((continue?_iff o).mp hc).2 m hm
+      have ih := setupLoop_length_le hm f (k + 1) (galerkin big A (prolong A)) (by omega) (by omega)
+      rw [setupLoop_succ_pos big prolong o hc, List.length_cons]
+      omega
+    | false =>
+      rw [setupLoop_succ_neg big prolong o hc, List.length_singleton]
+      omega
+
+/-- once the limit is reached nothing is added -/
+theorem setupLoop_length_eq_one {m : Nat} (hm : o.maxLevels = some m) (fuel k : Nat) (A : Csr K)
+    (hk : m ≤ k) : (setupLoop big prolong o fuel k A).length = 1 := by
+  have hc : continue? o A.nRows k = false := (continue?_false_iff o).mpr (Or.inr ⟨m, hm, hk⟩)
+  cases fuel with
+  | zero => rfl
+  | succ f => rw [setupLoop_succ_neg big prolong o hc, List.length_singleton]
+
+/-- the hierarchy has at most `max_levels` levels (one level exists before the loop starts) -/
+theorem setup_length_le {m : Nat} (hm : o.maxLevels = some m) (A : Csr K) :
+    (setup big prolong o A).length ≤ max m 1 := by
+  unfold setup
+  by_cases h : 1 ≤ m
+  · have := setupLoop_length_le big prolong o hm A.nRows 1 A (Nat.le_refl 1) h
+    omega
+  · have := setupLoop_length_eq_one big prolong o hm A.nRows 1 A (by omega)
+    omega
+
+theorem setup_length_pos (A : Csr K) : 1 ≤ (setup big prolong o A).length :=
+  setupLoop_length_pos big prolong o _ _ _
+
+end Structure
+
+/-! ## 3. Shapes -/
+
+/-- `Pᵀ(AP)` has one row and one column per column of `P` -/
+theorem galerkin_shape [Add K] [Mul K] [Zero K] (big : K → Bool) (A P : Csr K) :
+    (galerkin big A P).nRows = P.nCols ∧ (galerkin big A P).nCols = P.nCols := ⟨rfl, rfl⟩
+
+/-- work vectors of a level have the size of its operator (definitional) -/
+theorem workSize_eq (l : HLevel K) : workSize l = l.A.nRows := rfl
+
+section Shapes
+variable [CommSemiring K] (big : K → Bool) (prolong : Csr K → Csr K) (o : Opts)
+
+theorem galerkin_WF (A P : Csr K) (hA : A.WF = true) (hP : P.WF = true) :
+    (galerkin big A P).WF = true :=
+  C06.spgemmT_WF big (csrToCsc P) (spgemm big A P) (SpgemmLemmas.csrToCsc_WF P hP)
+    (C06.spgemm_WF big A P hA hP)
+
+/-- every level's operator is well formed and square -/
+theorem setupLoop_levels_WF (hg : GoodProlong prolong) : ∀ (fuel k : Nat) (A : Csr K),
+    A.WF = true → A.nRows = A.nCols → ∀ l ∈ setupLoop big prolong o fuel k A,
+      l.A.WF = true ∧ l.A.nRows = l.A.nCols
+  | 0, k, A, hA, hsq, l, hl => by
+    rw [setupLoop_zero, List.mem_singleton] at hl
+    subst hl
+    exact ⟨hA, hsq⟩
+  | f + 1, k, A, hA, hsq, l, hl => by
+    cases hc : continue? o A.nRows k with
+    | true =>
+      rw [setupLoop_succ_pos big prolong o hc, List.mem_cons] at hl
+      rcases hl with rfl | hl
+      · exact ⟨hA, hsq⟩
+      · exact setupLoop_levels_WF hg f (k + 1) _ (galerkin_WF big A _ hA (hg A hA hsq).1) rfl l hl
+    | false =>
+      rw [setupLoop_succ_neg big prolong o hc, List.mem_singleton] at hl
+      subst hl
+      exact ⟨hA, hsq⟩
+
+/-- **conformal**: `P` of a level has one row per unknown of the level and one column per unknown
+    of the next, every operator is square, the last level has no `P` -/
+theorem setupLoop_conformal (hg : GoodProlong prolong) : ∀ (fuel k : Nat) (A : Csr K),
+    A.WF = true → A.nRows = A.nCols → conformal (setupLoop big prolong o fuel k A) = true
+  | 0, k, A, hA, hsq => by
+    rw [setupLoop_zero]
+    show (Option.isNone (none : Option (Csr K)) && A.nRows == A.nCols) = true
+    rw [hsq]
+    simp only [Option.isNone_none, beq_self_eq_true, Bool.and_self]
+  | f + 1, k, A, hA, hsq => by
+    cases hc : continue? o A.nRows k with
+    | true =>
+      obtain ⟨hPwf, hPn⟩ := hg A hA hsq
+      have ih := setupLoop_conformal hg f (k + 1) (galerkin big A (prolong A))
+        (galerkin_WF big A _ hA hPwf) rfl
+      obtain ⟨P', rest, hT⟩ := setupLoop_cons big prolong o f (k + 1) (galerkin big A (prolong A))
+      rw [hT] at ih
+      rw [setupLoop_succ_pos big prolong o hc, hT]
+      show (((prolong A).nRows == A.nRows && (prolong A).nCols == (galerkin big A (prolong A)).nRows
+        && (prolong A).WF) && A.nRows == A.nCols && conformal (⟨_, P'⟩ :: rest)) = true
+      rw [ih, hPwf, hPn, hsq]
+      show ((A.nCols == A.nCols && (prolong A).nCols == (prolong A).nCols && true)
+        && A.nCols == A.nCols && true) = true
+      simp only [beq_self_eq_true, Bool.and_self]
+    | false =>
+      rw [setupLoop_succ_neg big prolong o hc]
+      show (Option.isNone (none : Option (Csr K)) && A.nRows == A.nCols) = true
+      rw [hsq]
+      simp only [Option.isNone_none, beq_self_eq_true, Bool.and_self]
+
+theorem setup_conformal (hg : GoodProlong prolong) (A : Csr K) (hA : A.WF = true)
+    (hsq : A.nRows = A.nCols) : conformal (setup big prolong o A) = true :=
+  setupLoop_conformal big prolong o hg _ _ A hA hsq
+
+/-! ## 4. The Galerkin identity -/
+
+/-- **consecutive levels**: `l.P = prolong l.A`, `c.A = galerkin l.A l.P`, with `l.A` well formed
+    and square (so that C06 applies) -/
+theorem setupLoop_consecutive (hg : GoodProlong prolong) (fuel k : Nat) (A : Csr K)
+    (hA : A.WF = true) (hsq : A.nRows = A.nCols) (l c : HLevel K)
+    (h : Consec (setupLoop big prolong o fuel k A) l c) :
+    l.P = some (prolong l.A) ∧ c.A = galerkin big l.A (prolong l.A) ∧
+      l.A.WF = true ∧ l.A.nRows = l.A.nCols := by
+  obtain ⟨h1, h2⟩ := setupLoop_consecutive_struct big prolong o fuel k A l c h
+  obtain ⟨h3, h4⟩ := setupLoop_levels_WF big prolong o hg fuel k A hA hsq l (consec_mem_left h)
+  exact ⟨h1, h2, h3, h4⟩
+
+/-- sizes of the work vectors against the prolongator between two consecutive levels -/
+theorem setupLoop_workSizes (hg : GoodProlong prolong) (fuel k : Nat) (A : Csr K)
+    (hA : A.WF = true) (hsq : A.nRows = A.nCols) (l c : HLevel K)
+    (h : Consec (setupLoop big prolong o fuel k A) l c) :
+    ∃ P, l.P = some P ∧ P.WF = true ∧ P.nRows = workSize l ∧ P.nCols = workSize c ∧
+      c.A.nCols = workSize c := by
+  obtain ⟨h1, h2, h3, h4⟩ := setupLoop_consecutive big prolong o hg fuel k A hA hsq l c h
+  obtain ⟨hPwf, hPn⟩ := hg l.A h3 h4
+  refine ⟨prolong l.A, h1, hPwf, hPn, ?_, ?_⟩
+  · rw [workSize_eq, h2]; rfl
+  · rw [workSize_eq, h2]; rfl
+
+/-- **Galerkin**: nothing dropped — the stored coarse operator is `Pᵀ A P` of the level above -/
+theorem setupLoop_galerkin (hg : GoodProlong prolong) (fuel k : Nat) (A₀ : Csr K)
+    (hA : A₀.WF = true) (hsq : A₀.nRows = A₀.nCols) (l c : HLevel K) (P : Csr K)
+    (h : Consec (setupLoop (fun _ => true) prolong o fuel k A₀) l c) (hP : l.P = some P)
+    (I J : Nat) :
+    c.A.den I J = ((List.range P.nRows).map fun k =>
+        ((List.range l.A.nCols).map fun m => P.den k I * l.A.den k m * P.den m J).sum).sum := by
+  obtain ⟨h1, h2, h3, h4⟩ := setupLoop_consecutive _ prolong o hg fuel k A₀ hA hsq l c h
+  rw [h1] at hP
+  cases hP
+  rw [h2]
+  exact C06.galerkin_csrToCsc l.A (prolong l.A) h3 (hg l.A h3 h4).1 I J
+
+/-- index form for `setup`: levels `i` and `i + 1` -/
+theorem setup_galerkin (hg : GoodProlong prolong) (A₀ : Csr K)
+    (hA : A₀.WF = true) (hsq : A₀.nRows = A₀.nCols) (i : Nat) (l c : HLevel K) (P : Csr K)
+    (hl : (setup (fun _ => true) prolong o A₀)[i]? = some l)
+    (hc : (setup (fun _ => true) prolong o A₀)[i + 1]? = some c) (hP : l.P = some P)
+    (I J : Nat) :
+    c.A.den I J = ((List.range P.nRows).map fun k =>
+        ((List.range l.A.nCols).map fun m => P.den k I * l.A.den k m * P.den m J).sum).sum :=
+  setupLoop_galerkin prolong o hg _ _ A₀ hA hsq l c P (consec_iff_getElem?.mpr ⟨i, hl, hc⟩) hP I J
+
+/-! ## 5. Strict coarsening and termination -/
+
+/-- a level with a successor was larger than `max_coarse` (and below the depth limit) -/
+theorem setupLoop_consecutive_continue : ∀ (fuel k : Nat) (A : Csr K) (l c : HLevel K),
+    Consec (setupLoop big prolong o fuel k A) l c → o.maxCoarse < l.A.nRows
+  | 0, k, A, l, c, h => absurd h (by rw [setupLoop_zero]; exact consec_singleton _ _ _)
+  | f + 1, k, A, l, c, h => by
+    cases hc : continue? o A.nRows k with
+    | true =>
+      rw [setupLoop_succ_pos big prolong o hc] at h
+      obtain ⟨P', rest, hT⟩ := setupLoop_cons big prolong o f (k + 1) (galerkin big A (prolong A))
+      rw [hT] at h
+      rcases consec_cons_cons.mp h with ⟨rfl, rfl⟩ | h'
+      · exact ((continue?_iff o).mp hc).1
+      · rw [← hT] at h'
+        exact setupLoop_consecutive_continue f (k + 1) _ l c h'
+    | false =>
+      rw [setupLoop_succ_neg big prolong o hc] at h
+      exact absurd h (consec_singleton _ _ _)
+
+/-- **strict coarsening**: the number of unknowns decreases from a level to the next -/
+theorem setupLoop_sizes_strict (hg : GoodProlong prolong) (hs : Strict o prolong) (fuel k : Nat)
+    (A : Csr K) (hA : A.WF = true) (hsq : A.nRows = A.nCols) (l c : HLevel K)
+    (h : Consec (setupLoop big prolong o fuel k A) l c) : c.A.nRows < l.A.nRows := by
+  obtain ⟨_, h2, h3, h4⟩ := setupLoop_consecutive big prolong o hg fuel k A hA hsq l c h
+  rw [h2]
+  exact hs l.A h3 h4 (setupLoop_consecutive_continue big prolong o fuel k A l c h)
+
+/-- one more unit of fuel changes nothing once the fuel covers the number of unknowns -/
+theorem setupLoop_fuel_succ (hg : GoodProlong prolong) (hs : Strict o prolong) :
+    ∀ (fuel k : Nat) (A : Csr K), A.WF = true → A.nRows = A.nCols → A.nRows ≤ fuel →
+      setupLoop big prolong o (fuel + 1) k A = setupLoop big prolong o fuel k A
+  | 0, k, A, hA, hsq, hle => by
+    have h0 : A.nRows = 0 := Nat.le_zero.mp hle
+    have hc : continue? o A.nRows k = false := by rw [h0]; exact continue?_zero o k
+    rw [setupLoop_succ_neg big prolong o hc, setupLoop_zero]
+  | f + 1, k, A, hA, hsq, hle => by
+    cases hc : continue? o A.nRows k with
+    | true =>
+      obtain ⟨hPwf, _⟩ := hg A hA hsq
+      have hlt : (prolong A).nCols < A.nRows := hs A hA hsq ((continue?_iff o).mp hc).1
+      have ih := setupLoop_fuel_succ hg hs f (k + 1) (galerkin big A (prolong A))
+        (galerkin_WF big A _ hA hPwf) rfl
+        (by show (prolong A).nCols ≤ f; omega)
+      rw [setupLoop_succ_pos big prolong o hc, setupLoop_succ_pos big prolong o hc, ih]
+    | false =>
+      rw [setupLoop_succ_neg big prolong o hc, setupLoop_succ_neg big prolong o hc]
+
+theorem setupLoop_fuel_add (hg : GoodProlong prolong) (hs : Strict o prolong)
+    (fuel k : Nat) (A : Csr K) (hA : A.WF = true) (hsq : A.nRows = A.nCols) (hle : A.nRows ≤ fuel) :
+    ∀ extra, setupLoop big prolong o (fuel + extra) k A = setupLoop big prolong o fuel k A
+  | 0 => rfl
+  | e + 1 => by
+    rw [← Nat.add_assoc, setupLoop_fuel_succ big prolong o hg hs (fuel + e) k A hA hsq (by omega)]
+    exact setupLoop_fuel_add hg hs fuel k A hA hsq hle e
+
+/-- **the fuel of the model never cuts the loop short**: the C++ `while` (which has no fuel) runs
+    at most `A.nRows` times, any larger allowance gives the same hierarchy -/
+theorem setup_fuel_irrelevant (hg : GoodProlong prolong) (hs : Strict o prolong)
+    (k : Nat) (A : Csr K) (hA : A.WF = true) (hsq : A.nRows = A.nCols) (extra : Nat) :
+    setupLoop big prolong o (A.nRows + extra) k A = setupLoop big prolong o A.nRows k A :=
+  setupLoop_fuel_add big prolong o hg hs A.nRows k A hA hsq (Nat.le_refl _) extra
+
+/-- `setup` is the loop run with any sufficient fuel -/
+theorem setup_eq_of_fuel_ge (hg : GoodProlong prolong) (hs : Strict o prolong)
+    (A : Csr K) (hA : A.WF = true) (hsq : A.nRows = A.nCols) (fuel : Nat) (h : A.nRows ≤ fuel) :
+    setupLoop big prolong o fuel 1 A = setup big prolong o A := by
+  obtain ⟨e, rfl⟩ := Nat.exists_eq_add_of_le h
+  exact setup_fuel_irrelevant big prolong o hg hs 1 A hA hsq e
+
+/-- **the loop stops for one of its two reasons**: with enough fuel the `while` condition is false
+    on the last level (`k + length - 1` levels exist at that point) -/
+theorem setupLoop_stops_at_limit (hg : GoodProlong prolong) (hs : Strict o prolong) :
+    ∀ (fuel k : Nat) (A : Csr K), A.WF = true → A.nRows = A.nCols → A.nRows ≤ fuel →
+      ∀ l, (setupLoop big prolong o fuel k A).getLast? = some l →
+        continue? o l.A.nRows (k + (setupLoop big prolong o fuel k A).length - 1) = false
+  | 0, k, A, hA, hsq, hle, l, hl => by
+    have h0 : A.nRows = 0 := Nat.le_zero.mp hle
+    rw [setupLoop_zero, List.getLast?_singleton] at hl
+    cases hl
+    show continue? o A.nRows _ = false
+    rw [h0]
+    exact continue?_zero o _
+  | f + 1, k, A, hA, hsq, hle, l, hl => by
+    cases hc : continue? o A.nRows k with
+    | true =>
+      obtain ⟨hPwf, _⟩ := hg A hA hsq
+      have hlt : (prolong A).nCols < A.nRows := hs A hA hsq ((continue?_iff o).mp hc).1
+      obtain ⟨P', rest, hT⟩ := setupLoop_cons big prolong o f (k + 1) (galerkin big A (prolong A))
+      rw [setupLoop_succ_pos big prolong o hc] at hl ⊢
+      rw [hT, List.getLast?_cons_cons, ← hT] at hl
+      have ih := setupLoop_stops_at_limit hg hs f (k + 1) (galerkin big A (prolong A))
+        (galerkin_WF big A _ hA hPwf) rfl (by show (prolong A).nCols ≤ f; omega) l hl
+      rw [List.length_cons]
+      have he : k + ((setupLoop big prolong o f (k + 1) (galerkin big A (prolong A))).length + 1) - 1
+          = k + 1 + (setupLoop big prolong o f (k + 1) (galerkin big A (prolong A))).length - 1 := by
+        omega
+      rw [he]
+      exact ih
+    | false =>
+      rw [setupLoop_succ_neg big prolong o hc] at hl ⊢
+      rw [List.getLast?_singleton] at hl
+      cases hl
+      show continue? o A.nRows (k + 1 - 1) = false
+      rw [Nat.add_sub_cancel]
+      exact hc
+
+/-- the same in the form `k - 1 + length` (`1 ≤ k` levels exist when the loop is entered):
+    either the last operator has at most `max_coarse` unknowns or the depth limit is reached -/
+theorem setup_stops_at_limit (hg : GoodProlong prolong) (hs : Strict o prolong)
+    (fuel k : Nat) (A : Csr K) (hA : A.WF = true) (hsq : A.nRows = A.nCols) (hle : A.nRows ≤ fuel)
+    (hk : 1 ≤ k) (l : HLevel K) (hl : (setupLoop big prolong o fuel k A).getLast? = some l) :
+    continue? o l.A.nRows (k - 1 + (setupLoop big prolong o fuel k A).length) = false ∧
+    (l.A.nRows ≤ o.maxCoarse ∨
+      ∃ m, o.maxLevels = some m ∧ m ≤ k - 1 + (setupLoop big prolong o fuel k A).length) := by
+  have h := setupLoop_stops_at_limit big prolong o hg hs fuel k A hA hsq hle l hl
+  have he : k + (setupLoop big prolong o fuel k A).length - 1
+      = k - 1 + (setupLoop big prolong o fuel k A).length := by omega
+  rw [he] at h
+  exact ⟨h, (continue?_false_iff o).mp h⟩
+
+/-- **`setup` stops at the size limit or at the depth limit** -/
+theorem setup_stoppedAtLimit (hg : GoodProlong prolong) (hs : Strict o prolong)
+    (A : Csr K) (hA : A.WF = true) (hsq : A.nRows = A.nCols) :
+    stoppedAtLimit o (setup big prolong o A) = true := by
+  have hne : setup big prolong o A ≠ [] := setupLoop_ne_nil big prolong o _ _ _
+  have hl := List.getLast?_eq_some_getLast hne
+  have h := (setup_stops_at_limit big prolong o hg hs A.nRows 1 A hA hsq (Nat.le_refl _)
+    (Nat.le_refl 1) _ hl).1
+  unfold stoppedAtLimit
+  rw [hl]
+  show (!continue? o _ (setup big prolong o A).length) = true
+  rw [Nat.sub_self, Nat.zero_add] at h
+  show (!continue? o _ (setupLoop big prolong o A.nRows 1 A).length) = true
+  rw [h]
+  rfl
+
+end Shapes
+
+/-! ## 6. Why coarsening is strict when the strength graph has an edge -/
+section Counting
+
+/-- two positions that are not both labelled 1 -/
+theorem count_lt_of_pair (L : List Int) {i j : Nat} (hi : i < L.length) (hj : j < L.length)
+    (h : ¬ (L.getD i 0 = 1 ∧ L.getD j 0 = 1)) : L.countP (· == 1) < L.length := by
+  apply countP_lt_length_of_exists
+  by_cases h1 : L.getD i 0 = 1
+  · have h2 : L.getD j 0 ≠ 1 := fun h2 => h ⟨h1, h2⟩
+    refine ⟨L[j], List.getElem_mem hj, ?_⟩
+    rw [getD_of_lt _ _ _ hj] at h2
+    exact beq_false_of_ne h2
+  · refine ⟨L[i], List.getElem_mem hi, ?_⟩
+    rw [getD_of_lt _ _ _ hi] at h1
+    exact beq_false_of_ne h1
+
+/-- **pure counting**: on a graph with `n` vertices given by adjacency lists, if no two distinct
+    adjacent vertices are both labelled 1 and there is an edge between two distinct vertices, then
+    fewer than `n` vertices are labelled 1 -/
+theorem count_lt_of_independent (S : List (List Nat)) (L : List Int) (n : Nat) (hlen : L.length = n)
+    (hind : ∀ i j, i < n → j < n → i ≠ j → j ∈ S.getD i [] → ¬ (L.getD i 0 = 1 ∧ L.getD j 0 = 1))
+    {i j : Nat} (hi : i < n) (hj : j < n) (hij : i ≠ j) (hadj : j ∈ S.getD i []) :
+    L.countP (· == 1) < n := by
+  subst hlen
+  exact count_lt_of_pair L hi hj (hind i j hi hj hij hadj)
+
+/-- the bridge to `Strict`: a builder whose prolongator has one column per point labelled 1 by a
+    splitting `labels` is strict as soon as, on every operator still above `max_coarse`, two
+    points are not both labelled 1 (which `count_lt_of_independent` derives from one edge of the
+    strength graph and the independence of the splitting) -/
+theorem strict_of_labels (o : Opts) (prolong : Csr K → Csr K) (labels : Csr K → List Int)
+    (hcols : ∀ A, (prolong A).nCols = (labels A).countP (· == 1))
+    (hlen : ∀ A, (labels A).length = A.nRows)
+    (hpair : ∀ A : Csr K, A.WF = true → A.nRows = A.nCols → o.maxCoarse < A.nRows →
+      ∃ i j, i < A.nRows ∧ j < A.nRows ∧ ¬ ((labels A).getD i 0 = 1 ∧ (labels A).getD j 0 = 1)) :
+    Strict o prolong := by
+  intro A hA hsq hlt
+  obtain ⟨i, j, hi, hj, hn⟩ := hpair A hA hsq hlt
+  rw [hcols, ← hlen A]
+  exact count_lt_of_pair (labels A) (by rw [hlen]; exact hi) (by rw [hlen]; exact hj) hn
+
+end Counting
+
+/-! ### (a) PMIS: fewer coarse points than points -/
+section PmisCount
+variable {W : Type} [LinearOrder W] [Zero W] [One W] [Add W]
+
+/-- two distinct vertices that strongly depend on each other: not every point is coarse
+    (distinct initial weights, as in `C13.pmis_independent`) -/
+theorem pmis_coarse_count_lt (S : Split.Graph) (rand : List W) (natCast : Nat → W)
+    (hdist : ∀ i j, i < S.length → j < S.length →
+      C13.w0 S rand natCast i = C13.w0 S rand natCast j → i = j)
+    {i j : Nat} (hi : i < S.length) (hj : j < S.length) (hij : i ≠ j)
+    (hadj : j ∈ S.getD i []) (hadj' : i ∈ S.getD j []) :
+    (Split.pmis S rand natCast).countP (· == 1) < S.length := by
+  have hlen := C13.pmis_length rand natCast S
+  have := count_lt_of_pair (Split.pmis S rand natCast) (by rw [hlen]; exact hi)
+    (by rw [hlen]; exact hj) (C13.pmis_independent rand natCast hdist hi hj hij hadj hadj')
+  rwa [hlen] at this
+
+/-- on a symmetric strength graph the coarse points are independent, so one edge between distinct
+    vertices is enough (instance of `count_lt_of_independent`) -/
+theorem pmis_coarse_count_lt_of_symm (S : Split.Graph) (rand : List W) (natCast : Nat → W)
+    (hdist : ∀ i j, i < S.length → j < S.length →
+      C13.w0 S rand natCast i = C13.w0 S rand natCast j → i = j)
+    (hsym : ∀ i j, j ∈ S.getD i [] → i ∈ S.getD j [])
+    {i j : Nat} (hi : i < S.length) (hj : j < S.length) (hij : i ≠ j) (hadj : j ∈ S.getD i []) :
+    (Split.pmis S rand natCast).countP (· == 1) < S.length :=
+  count_lt_of_independent S _ S.length (C13.pmis_length rand natCast S)
+    (fun a b ha hb hab h => C13.pmis_independent rand natCast hdist ha hb hab h (hsym a b h))
+    hi hj hij hadj
+
+/-- the form used by setup: symmetric strength graph with the diagonal removed and in-range
+    columns; `hasUsableEdge` (the graph has an edge) makes the coarse grid smaller -/
+theorem pmis_coarse_count_lt_of_usableEdge (S : Split.Graph) (rand : List W) (natCast : Nat → W)
+    (hdist : ∀ i j, i < S.length → j < S.length →
+      C13.w0 S rand natCast i = C13.w0 S rand natCast j → i = j)
+    (hsym : ∀ i j, j ∈ S.getD i [] → i ∈ S.getD j [])
+    (hnoself : ∀ i, i ∉ S.getD i [])
+    (hclosed : ∀ i j, j ∈ S.getD i [] → j < S.length)
+    (hedge : Split.hasUsableEdge S = true) :
+    (Split.pmis S rand natCast).countP (· == 1) < S.length := by
+  obtain ⟨i, hi, j, hj, _⟩ := (C13.hasUsableEdge_iff S).mp hedge
+  have hij : i ≠ j := fun h => hnoself i (h ▸ hj)
+  exact pmis_coarse_count_lt_of_symm S rand natCast hdist hsym hi (hclosed i j hj) hij hj
+
+end PmisCount
+
+/-! ### (b) MIS-2: fewer roots, hence fewer aggregates, than points -/
+section MisCount
+open Raptor.Mis
+variable {W : Type} [LinearOrder W] [Zero W]
+
+/-- adjacent distinct vertices are within two edges of each other, so not both roots -/
+theorem mis2_not_both_roots {S : Mis.Graph} {r : List W} (hl : SelfLoops S) (hs : Symm S)
+    (hk : DistinctKeys S r) {i j : Nat} (hij : i ≠ j) (hadj : j ∈ S.getD i []) :
+    ¬ ((mis2 S r).getD i 0 = 1 ∧ (mis2 S r).getD j 0 = 1) := by
+  rintro ⟨h1, h2⟩
+  exact hij (independent2_iff.mp (C15.mis2_independent hl hs hk) i j h1 h2
+    (mem_within2.mpr (Or.inl hadj)))
+
+/-- instance of `count_lt_of_independent` -/
+theorem mis2_root_count_lt {S : Mis.Graph} {r : List W} (hl : SelfLoops S) (hs : Symm S)
+    (hk : DistinctKeys S r) {i j : Nat} (hi : i < S.length) (hj : j < S.length) (hij : i ≠ j)
+    (hadj : j ∈ S.getD i []) : (mis2 S r).countP (· == 1) < S.length :=
+  count_lt_of_independent S _ S.length (C15.mis2_length S r)
+    (fun _ _ _ _ hab h => mis2_not_both_roots hl hs hk hab h) hi hj hij hadj
+
+/-- the list of roots is shorter than the list of vertices -/
+theorem mis2_roots_lt {S : Mis.Graph} {r : List W} (hl : SelfLoops S) (hs : Symm S)
+    (hk : DistinctKeys S r) {i j : Nat} (hi : i < S.length) (hj : j < S.length) (hij : i ≠ j)
+    (hadj : j ∈ S.getD i []) : (roots (mis2 S r)).length < S.length := by
+  have hnb := mis2_not_both_roots hl hs hk hij hadj
+  have hlen := C15.mis2_length S r
+  unfold roots
+  rw [← List.countP_eq_length_filter, hlen]
+  have := countP_lt_length_of_exists (fun v => lab (mis2 S r) v == 1) (List.range S.length) (by
+    by_cases h1 : lab (mis2 S r) i = 1
+    · exact ⟨j, List.mem_range.mpr hj, beq_false_of_ne fun h2 => hnb ⟨h1, h2⟩⟩
+    · exact ⟨i, List.mem_range.mpr hi, beq_false_of_ne h1⟩)
+  rwa [List.length_range] at this
+
+/-- **fewer aggregates than points**: the distinct aggregate identifiers produced by `aggregate`
+    on the MIS-2 labels are roots, so there are fewer of them than vertices -/
+theorem mis2_aggregates_lt [Add W] {S : Mis.Graph} {absA : Nat → Nat → W} {r : List W}
+    (hl : SelfLoops S) (hs : Symm S) (hc : Closed S) (hk : DistinctKeys S r)
+    {i j : Nat} (hi : i < S.length) (hj : j < S.length) (hij : i ≠ j) (hadj : j ∈ S.getD i []) :
+    (((aggregate S absA r (mis2 S r)).filterMap id).dedup).length < S.length := by
+  refine Nat.lt_of_le_of_lt ?_ (mis2_roots_lt hl hs hk hi hj hij hadj)
+  apply length_le_of_nodup_subset (List.nodup_dedup _)
+  intro a ha
+  rw [List.mem_dedup, List.mem_filterMap] at ha
+  obtain ⟨x, hx, hxa⟩ := ha
+  have hxa' : x = some a := hxa
+  subst hxa'
+  obtain ⟨v, hv, hva⟩ := List.getElem_of_mem hx
+  have hlenA : (aggregate S absA r (mis2 S r)).length = S.length := by
+    unfold aggregate pass2
+    rw [List.length_map, List.length_range]
+  have hget : (aggregate S absA r (mis2 S r)).getD v none = some a := by
+    rw [getD_of_lt _ _ _ hv, hva]
+  exact mem_roots.mpr (C15.aggregate_sound hl hc (hlenA ▸ hv) hget).1
+
+end MisCount
+
+/-! ## 7. A concrete run: 4×4 path-graph Laplacian, pairwise aggregation -/
+section Example
+
+/-- `tridiag(-1, 2, -1)` of size 4 -/
+def exA : Csr Int :=
+  ⟨4, 4, [[(0, 2), (1, -1)], [(0, -1), (1, 2), (2, -1)], [(1, -1), (2, 2), (3, -1)],
+          [(2, -1), (3, 2)]]⟩
+
+/-- pairwise aggregation: unknown `i` goes to aggregate `i / 2`
+    (4 → 2: `[[(0,1)],[(0,1)],[(1,1)],[(1,1)]]`, then 2 → 1: `[[(0,1)],[(0,1)]]`) -/
+def pairAgg (A : Csr Int) : Csr Int :=
+  ⟨A.nRows, (A.nRows + 1) / 2, (List.range A.nRows).map fun i => [(i / 2, 1)]⟩
+
+def exO1 : Opts := ⟨1, none⟩
+def exO2 : Opts := ⟨0, some 2⟩
+def exBig : Int → Bool := fun _ => true
+
+example : pairAgg exA = ⟨4, 2, [[(0, 1)], [(0, 1)], [(1, 1)], [(1, 1)]]⟩ := by decide
+example : exA.WF = true ∧ exA.nRows = exA.nCols ∧ hasEdge exA = true := by decide
+
+/-- the hypotheses of the theorems are satisfiable -/
+theorem pairAgg_good : GoodProlong pairAgg := by
+  intro A _ _
+  refine ⟨?_, rfl⟩
+  rw [SpgemmLemmas.Csr.WF_iff]
+  refine ⟨?_, ?_⟩
+  · show ((List.range A.nRows).map fun i => [(i / 2, (1 : Int))]).length = A.nRows
+    rw [List.length_map, List.length_range]
+  · intro r hr e he
+    have hr' : r ∈ (List.range A.nRows).map fun i => [(i / 2, (1 : Int))] := hr
+    rw [List.mem_map] at hr'
+    obtain ⟨i, hi, rfl⟩ := hr'
+    rw [List.mem_singleton] at he
+    subst he
+    have := List.mem_range.mp hi
+    show i / 2 < (A.nRows + 1) / 2
+    omega
+
+theorem pairAgg_strict (o : Opts) (h1 : 1 ≤ o.maxCoarse) : Strict o pairAgg := by
+  intro A _ _ h
+  show (A.nRows + 1) / 2 < A.nRows
+  omega
+
+/-- `max_coarse = 1`, no depth limit: 4 → 2 → 1 unknowns, three levels -/
+example : (setup exBig pairAgg exO1 exA).length = 3 := by decide
+example : (setup exBig pairAgg exO1 exA).map (·.A.nRows) = [4, 2, 1] := by decide
+example : conformal (setup exBig pairAgg exO1 exA) = true := by decide
+example : stoppedAtLimit exO1 (setup exBig pairAgg exO1 exA) = true := by decide
+/-- hand-computed `PᵀAP`: `[[2,-1],[-1,2]]`, then `[[2]]` -/
+example : (setup exBig pairAgg exO1 exA).map (fun l => (List.range l.A.nRows).map fun i =>
+      (List.range l.A.nCols).map fun j => l.A.den i j)
+    = [[[2, -1, 0, 0], [-1, 2, -1, 0], [0, -1, 2, -1], [0, 0, -1, 2]],
+       [[2, -1], [-1, 2]],
+       [[2]]] := by decide
+example : (setup exBig pairAgg exO1 exA).map (·.P)
+    = [some ⟨4, 2, [[(0, 1)], [(0, 1)], [(1, 1)], [(1, 1)]]⟩, some ⟨2, 1, [[(0, 1)], [(0, 1)]]⟩,
+       none] := by decide
+
+/-- `max_coarse = 0`, `max_levels = 2`: the depth limit stops the loop after one coarsening -/
+example : (setup exBig pairAgg exO2 exA).length = 2 := by decide
+example : (setup exBig pairAgg exO2 exA).map (·.A.nRows) = [4, 2] := by decide
+example : conformal (setup exBig pairAgg exO2 exA) = true := by decide
+example : stoppedAtLimit exO2 (setup exBig pairAgg exO2 exA) = true := by decide
+example : (setup exBig pairAgg exO2 exA).map (fun l => (List.range l.A.nRows).map fun i =>
+      (List.range l.A.nCols).map fun j => l.A.den i j)
+    = [[[2, -1, 0, 0], [-1, 2, -1, 0], [0, -1, 2, -1], [0, 0, -1, 2]],
+       [[2, -1], [-1, 2]]] := by decide
+
+/-- the general theorems applied to the run -/
+example : conformal (setup exBig pairAgg exO1 exA) = true :=
+  setup_conformal exBig pairAgg exO1 pairAgg_good exA (by decide) (by decide)
+example : stoppedAtLimit exO1 (setup exBig pairAgg exO1 exA) = true :=
+  setup_stoppedAtLimit exBig pairAgg exO1 pairAgg_good (pairAgg_strict exO1 (by decide)) exA
+    (by decide) (by decide)
+example : (setup exBig pairAgg exO2 exA).length ≤ 2 :=
+  setup_length_le exBig pairAgg exO2 (m := 2) rfl exA
+
+/-- without strictness the depth limit is what stops the loop: `max_coarse = 0` can never be
+    reached by pairwise aggregation (1 → 1), and with no depth limit the fuel would cut the loop -/
+example : (setup exBig pairAgg ⟨0, none⟩ exA).length = 5
+    ∧ stoppedAtLimit ⟨0, none⟩ (setup exBig pairAgg ⟨0, none⟩ exA) = false := by decide
+
+end Example
+
 end Raptor.C08
